@@ -14,6 +14,14 @@ A case is JSON: {"struct": {...}, "theta": {name: float}, "kseed": int, "n": int
   family "mix" : b ~ flip(p); x ~ N(b ? a1 : a0, t); v ~ N(x, l), v = y
                  guide: b ~ flip(q); x ~ N(b ? m1 : m0, b ? s1 : s0)
 
+  family "ch"  : x1 ~ N(a1, t1); x2 ~ N(k*x1 + d, t2); v ~ N(x2, l), v = y   (two latent normals)
+                 guide G1: x1 ~ N(m1, s1); x2 ~ N(m2, s2)            (shape "mf", mean field)
+                           x1 ~ N(m1, s1); x2 ~ N(c*x1 + m2, s2)     (shape "st", structured)
+                 guide G2 (QWake's posterior_approx): the same with (n1, r1, n2, r2, e)
+                 Two reparameterised sites in one ADEV program: the gradients w.r.t. the SCALES see
+                 the cross moment E[(x2 - x1)^2] of the two noises (shared noise biases them while
+                 the location gradients stay right).
+
 Every named quantity (including the observed value y) is an entry of theta; theta is the
 argument tuple of grad_estimate and reaches model and guide through target.args (the calling
 convention of tests/inference/test_vi.py). A quantity that a structure does not use must get
@@ -72,6 +80,12 @@ PARAMS = {
         "p": PROB, "a0": LOC, "a1": LOC, "t": (0.7, 1.8), "l": LSCALE, "y": (-2.0, 2.0),
     },
 }
+PARAMS["ch"] = {
+    "m1": LOC, "s1": SCALE, "m2": LOC, "s2": SCALE, "c": (-1.0, 1.0),
+    "n1": LOC, "r1": SCALE, "n2": LOC, "r2": SCALE, "e": (-1.0, 1.0),
+    "a1": LOC, "t1": (0.7, 1.8), "k": (-1.2, 1.2), "d": (-1.0, 1.0), "t2": (0.7, 1.8), "l": LSCALE, "y": (-2.0, 2.0),
+}
+
 THETA_KINDS = {"reparam", "reinforce", "plain", "enum", "freinforce"}  # parameters come from theta
 ADEV_KINDS = {"reparam", "reinforce", "enum", "freinforce"}  # sample through an ADEV primitive
 
@@ -87,8 +101,12 @@ def struct_id(struct):
     s += f":{struct['g1']}"
     if struct.get("g1b"):
         s += f"+{struct['g1b']}"
+    if struct.get("shape"):
+        s += f"({struct['shape']})"
     if struct["objective"] == "QWake":
         s += f"|{struct['g2']}"
+        if struct.get("g2b"):
+            s += f"+{struct['g2b']}({struct['shape2']})"
     return s
 
 
@@ -120,6 +138,23 @@ def _const(struct, which):
     return struct["const"][which]
 
 
+def _iw_expect(lw1, w, N):
+    """E[log (1/N) sum_i W_i] for N iid draws, each taking the node values lw1 (log weight) with
+    probabilities w"""
+    if N == 1:
+        return float(np.sum(w * lw1))
+    # R = log sum of the weights of draws 2..N on their (N-1)-dimensional grid; the first draw
+    # is looped over so that no temporary exceeds len(w)^(N-1) elements
+    R, Wr = lw1, w
+    for _ in range(N - 2):
+        R = np.logaddexp(R[..., None], lw1)
+        Wr = Wr[..., None] * w
+    tot = 0.0
+    for ai, wi in zip(lw1, w):
+        tot += wi * float(np.sum(Wr * np.logaddexp(ai, R)))
+    return tot - math.log(N)
+
+
 def loss_nn(struct, P, K):
     obj = struct["objective"]
     g1 = (P["m"], P["s"]) if struct["g1"] in THETA_KINDS else tuple(_const(struct, "g1"))
@@ -135,18 +170,7 @@ def loss_nn(struct, P, K):
         N = 1 if obj == "ELBO" else struct["N"]
         x = g1[0] + g1[1] * z  # the N draws are iid: one set of 1-D nodes serves every axis
         lw1 = logp(x) - _logn(x, g1[0], g1[1])  # log importance weight at each node
-        if N == 1:
-            return -float(np.sum(w * lw1))
-        # R = log sum of the weights of draws 2..N on their (N-1)-dimensional grid; the first draw
-        # is looped over so that no temporary exceeds K^(N-1) elements
-        R, Wr = lw1, w
-        for _ in range(N - 2):
-            R = np.logaddexp(R[..., None], lw1)
-            Wr = Wr[..., None] * w
-        tot = 0.0
-        for ai, wi in zip(lw1, w):
-            tot += wi * float(np.sum(Wr * np.logaddexp(ai, R)))
-        return -(tot - math.log(N))
+        return -_iw_expect(lw1, w, N)
     if obj == "PWake":
         x = g1[0] + g1[1] * z
         return -float(np.sum(w * logp(x)))
@@ -218,7 +242,46 @@ def loss_mix(struct, P, K):
     return -float(tot)
 
 
-LOSS = {"nn": loss_nn, "bb": loss_bb, "bb2": loss_bb2, "mix": loss_mix}
+CH_G1 = ("m1", "s1", "m2", "s2", "c")
+CH_G2 = ("n1", "r1", "n2", "r2", "e")
+
+
+def loss_ch(struct, P, K):
+    obj = struct["objective"]
+    z, w = _gh(K)
+    Z1, Z2 = np.meshgrid(z, z, indexing="ij")
+    W = np.outer(w, w)
+
+    def loc2(g, shape, x1):
+        return (g[4] * x1 if shape == "st" else 0.0) + g[2]
+
+    def draw(g, shape):
+        x1 = g[0] + g[1] * Z1
+        return x1, loc2(g, shape, x1) + g[3] * Z2
+
+    def logq(g, shape, x1, x2):
+        return _logn(x1, g[0], g[1]) + _logn(x2, loc2(g, shape, x1), g[3])
+
+    def logp(x1, x2):
+        return _logn(x1, P["a1"], P["t1"]) + _logn(x2, P["k"] * x1 + P["d"], P["t2"]) + _logn(P["y"], x2, P["l"])
+
+    g1 = [P[n] for n in CH_G1]
+    if obj in ("ELBO", "IWELBO"):
+        N = 1 if obj == "ELBO" else struct["N"]
+        x1, x2 = draw(g1, struct["shape"])
+        lw = logp(x1, x2) - logq(g1, struct["shape"], x1, x2)
+        return -_iw_expect(lw.ravel(), W.ravel(), N)
+    if obj == "PWake":
+        x1, x2 = draw(g1, struct["shape"])
+        return -float(np.sum(W * logp(x1, x2)))
+    if obj == "QWake":
+        g2 = [P[n] for n in CH_G2]
+        x1, x2 = draw(g2, struct["shape2"])
+        return -float(np.sum(W * logq(g1, struct["shape"], x1, x2)))
+    raise HarnessError(obj)
+
+
+LOSS = {"nn": loss_nn, "bb": loss_bb, "bb2": loss_bb2, "mix": loss_mix, "ch": loss_ch}
 
 
 def quad_orders(struct):
@@ -226,6 +289,10 @@ def quad_orders(struct):
     fam = struct["family"]
     if fam in ("bb", "bb2"):
         return (None,)
+    if fam == "ch":
+        if struct["objective"] == "IWELBO" and struct["N"] >= 2:
+            return (20, 28)  # (K^2)^N joint nodes
+        return (8, 12)  # integrands are quadratic: exact
     if fam == "nn" and struct["objective"] == "IWELBO":
         return {1: (48, 64), 2: (64, 96), 3: (40, 56)}[struct["N"]]
     return (32, 48)
@@ -322,6 +389,33 @@ def _self_test():
     lp0 = math.log(0.4) + _logn(0.6, -0.5, 0.9)
     if abs(gb["q"] - (-(lp1 - lp0) + math.log(0.3) - math.log(0.7))) > 1e-7:
         raise HarnessError(f"oracle self-test (Bernoulli ELBO) failed: {gb}")
+    # chain x1~N(0,1), x2~N(x1,1), v~N(x2,l) with a structured guide x1~N(m1,s1), x2~N(c x1+m2,s2):
+    # loss = (m1^2+s1^2)/2 + [((c-1)m1+m2)^2 + (c-1)^2 s1^2 + s2^2]/2
+    #        + [(y-c m1-m2)^2 + c^2 s1^2 + s2^2]/(2 l^2) - log s1 - log s2 + const
+    tc = dict(m1=0.4, s1=0.7, m2=0.9, s2=1.3, c=0.6, n1=0.1, r1=0.8, n2=-0.2, r2=1.1, e=-0.4,
+              a1=0.0, t1=1.0, k=1.0, d=0.0, t2=1.0, l=0.5, y=1.5)
+    for shape in ("st", "mf"):
+        cc = tc["c"] if shape == "st" else 0.0
+        m1, s1, m2, s2, l, y = tc["m1"], tc["s1"], tc["m2"], tc["s2"], tc["l"], tc["y"]
+        u = (cc - 1) * m1 + m2
+        r = y - cc * m1 - m2
+        wc = {
+            "m1": m1 + u * (cc - 1) - r * cc / l**2,
+            "s1": s1 + (cc - 1) ** 2 * s1 + cc**2 * s1 / l**2 - 1 / s1,
+            "m2": u - r / l**2,
+            "s2": s2 + s2 / l**2 - 1 / s2,
+            "c": (u * m1 + (cc - 1) * s1**2 + (-r * m1 + cc * s1**2) / l**2) if shape == "st" else 0.0,
+            "n1": 0.0,
+        }
+        st_ = {"family": "ch", "objective": "ELBO", "g1": "reparam", "g1b": "reparam", "shape": shape}
+        gc, un = ref_gradient(st_, tc)
+        gi, _ = ref_gradient({**st_, "objective": "IWELBO", "N": 1}, tc)
+        for kk, v in wc.items():
+            if abs(gc[kk] - v) > 1e-7 or abs(gi[kk] - v) > 1e-7 or un[kk] > 1e-8:
+                raise HarnessError(f"oracle self-test (chain ELBO closed form, {shape}) failed at {kk}: {gc[kk]} vs {v}")
+    # mean-field unit chain: d/ds1 = 2 s1 - 1/s1 (it would be 2 s1 - s2 - 1/s1 if both sites shared their noise)
+    if abs(gc["s1"] - (2 * 0.7 - 1 / 0.7)) > 1e-7:
+        raise HarnessError("oracle self-test (chain mean-field scale gradient) failed")
 
 
 _SELF_TESTED = False
@@ -468,6 +562,31 @@ def build(struct):
 
             return g
 
+    elif fam == "ch":
+
+        @genjax.gen
+        def model(m1, s1, m2, s2, c, n1, r1, n2, r2, e, a1, t1, k, d, t2, l, y):
+            x1 = genjax.normal(a1, t1) @ "x1"
+            x2 = genjax.normal(k * x1 + d, t2) @ "x2"
+            _ = genjax.normal(x2, l) @ "v"
+
+        def guide(kind, which):
+            if which == "g1":
+                pa, pb, shape, pn = prims[struct["g1"]], prims[struct["g1b"]], struct["shape"], CH_G1
+            else:
+                pa, pb, shape, pn = prims[struct["g2"]], prims[struct["g2b"]], struct["shape2"], CH_G2
+            i_m1, i_s1, i_m2, i_s2, i_c = (ix[n] for n in pn)
+
+            @genjax.marginal()
+            @genjax.gen
+            def g(target):
+                A = target.args
+                x1 = pa(A[i_m1], A[i_s1]) @ "x1"
+                loc2 = A[i_c] * x1 + A[i_m2] if shape == "st" else A[i_m2]
+                _ = pb(loc2, A[i_s2]) @ "x2"
+
+            return g
+
     else:
         raise HarnessError(fam)
 
@@ -531,7 +650,7 @@ def is_exact(struct):
         kinds.append(struct["g1b"])
     if struct["objective"] == "QWake":
         # the proposal G1 is only scored; G2 is the one that is sampled
-        kinds = [struct["g2"]]
+        kinds = [struct["g2"]] + ([struct["g2b"]] if struct.get("g2b") else [])
         if struct["g1"] == "const" and struct["g2"] == "const":
             return True  # nothing depends on theta at all: exactly 0
     return all(k == "enum" for k in kinds)
@@ -625,52 +744,86 @@ NN_CONST = {"g1": [0.4, 0.9], "g2": [-0.2, 1.2]}
 BB_CONST = {"g1": [0.4], "g2": [0.65]}
 
 
+QUICK_ROTATION = 4  # a quick run takes the core structures plus every 4th of the others (by seed)
+
+
 def all_structures(tier):
+    """the structure table. cost = measured seconds of tracing + compilation (alone on a core);
+    sel = "core" (every quick run), "rot" (quick: one of QUICK_ROTATION seed-chosen slices) or
+    "thorough" (thorough tier only). The thorough tier runs everything."""
     S = []
 
-    def add(cost, **kw):
+    def add(cost, sel="rot", **kw):
         fam = kw["family"]
         if "const" in (kw.get("g1"), kw.get("g2")):
             kw["const"] = NN_CONST if fam == "nn" else BB_CONST
         kw["cost"] = cost
-        S.append(kw)
+        kw["sel"] = sel
+        if tier != "quick" or sel != "thorough":
+            S.append(kw)
 
+    C = "core"
     # --- Normal-Normal ---
-    for k in ("reparam", "reinforce", "plain"):
-        add(1, family="nn", objective="ELBO", g1=k)
+    add(6, C, family="nn", objective="ELBO", g1="reparam")
+    add(4, C, family="nn", objective="ELBO", g1="reinforce")
+    add(6, family="nn", objective="ELBO", g1="plain")
     for N in (1, 2, 3):
-        for k in ("plain", "const", "reparam", "reinforce"):
-            add(1 + N, family="nn", objective="IWELBO", N=N, g1=k)
-    for k in ("reparam", "reinforce", "const"):
-        add(1, family="nn", objective="PWake", g1=k)
-    for k1, k2 in (("reparam", "const"), ("reinforce", "reparam"), ("reparam", "reinforce"), ("const", "const"), ("plain", "plain")):
-        add(1, family="nn", objective="QWake", g1=k1, g2=k2)
+        add(9, C if N == 3 else "rot", family="nn", objective="IWELBO", N=N, g1="plain")
+        add(9, C if N == 2 else "rot", family="nn", objective="IWELBO", N=N, g1="const")
+        add(9, family="nn", objective="IWELBO", N=N, g1="reparam")
+        add(9, family="nn", objective="IWELBO", N=N, g1="reinforce")
+    add(4, C, family="nn", objective="PWake", g1="reparam")
+    add(5, family="nn", objective="PWake", g1="reinforce")
+    add(4, family="nn", objective="PWake", g1="const")
+    add(4, C, family="nn", objective="QWake", g1="reparam", g2="const")
+    add(2, family="nn", objective="QWake", g1="reinforce", g2="reparam")
+    add(2, family="nn", objective="QWake", g1="reparam", g2="reinforce")
+    add(1, C, family="nn", objective="QWake", g1="const", g2="const")
+    add(2, family="nn", objective="QWake", g1="plain", g2="plain")
     # --- Bernoulli ---
-    for k in ("enum", "freinforce"):
-        add(1, family="bb", objective="ELBO", g1=k)
+    add(3, C, family="bb", objective="ELBO", g1="enum")
+    add(3, C, family="bb", objective="ELBO", g1="freinforce")
     for N in (1, 2, 3):
-        for k in ("const", "enum", "freinforce"):
-            add(1 + N, family="bb", objective="IWELBO", N=N, g1=k)
-    for k in ("enum", "freinforce", "const"):
-        add(1, family="bb", objective="PWake", g1=k)
-    for k1, k2 in (("enum", "const"), ("enum", "enum"), ("freinforce", "freinforce"), ("const", "const")):
-        add(1, family="bb", objective="QWake", g1=k1, g2=k2)
+        add(7, C if N == 1 else "rot", family="bb", objective="IWELBO", N=N, g1="const")
+        add(7, family="bb", objective="IWELBO", N=N, g1="enum")
+        add(7, family="bb", objective="IWELBO", N=N, g1="freinforce")
+    add(1, C, family="bb", objective="PWake", g1="enum")
+    add(2, family="bb", objective="PWake", g1="freinforce")
+    add(4, family="bb", objective="PWake", g1="const")
+    add(3, family="bb", objective="QWake", g1="enum", g2="const")
+    add(1, family="bb", objective="QWake", g1="enum", g2="enum")
+    add(4, family="bb", objective="QWake", g1="freinforce", g2="freinforce")
+    add(1, family="bb", objective="QWake", g1="const", g2="const")
     # --- two Bernoulli sites (nested enumeration) ---
-    add(2, family="bb2", objective="ELBO", g1="enum", g1b="enum")
-    add(2, family="bb2", objective="ELBO", g1="enum", g1b="freinforce")
-    add(2, family="bb2", objective="PWake", g1="enum", g1b="enum")
+    add(5, C, family="bb2", objective="ELBO", g1="enum", g1b="enum")
+    add(4, family="bb2", objective="ELBO", g1="enum", g1b="freinforce")
+    add(1, family="bb2", objective="PWake", g1="enum", g1b="enum")
+    add(4, "thorough", family="bb2", objective="ELBO", g1="freinforce", g1b="enum")
     # --- Bernoulli then Normal ---
-    add(2, family="mix", objective="ELBO", g1="enum", g1b="reparam")
-    add(2, family="mix", objective="ELBO", g1="freinforce", g1b="reinforce")
-    if tier != "quick":
-        add(2, family="bb2", objective="ELBO", g1="freinforce", g1b="enum")
-        add(2, family="mix", objective="ELBO", g1="enum", g1b="reinforce")
-        add(2, family="mix", objective="PWake", g1="enum", g1b="reparam")
+    add(6, C, family="mix", objective="ELBO", g1="enum", g1b="reparam")
+    add(6, family="mix", objective="ELBO", g1="freinforce", g1b="reinforce")
+    add(6, "thorough", family="mix", objective="ELBO", g1="enum", g1b="reinforce")
+    add(6, "thorough", family="mix", objective="PWake", g1="enum", g1b="reparam")
+    # --- two latent normals: >= 2 reparameterised sites in one ADEV program ---
+    RR = dict(g1="reparam", g1b="reparam")
+    add(5, C, family="ch", objective="ELBO", shape="mf", **RR)
+    add(5, C, family="ch", objective="ELBO", shape="st", **RR)
+    add(3, family="ch", objective="ELBO", shape="st", g1="reinforce", g1b="reparam")
+    add(4, family="ch", objective="PWake", shape="st", **RR)
+    add(4, C, family="ch", objective="QWake", shape="st", g2="reparam", g2b="reparam", shape2="st", **RR)
+    for N in (1, 2):
+        add(7, family="ch", objective="IWELBO", N=N, shape="st", g1="plain", g1b="plain")
+        add(7, family="ch", objective="IWELBO", N=N, shape="st", **RR)
+    add(3, "thorough", family="ch", objective="ELBO", shape="mf", g1="reparam", g1b="reinforce")
+    add(5, "thorough", family="ch", objective="ELBO", shape="mf", g1="plain", g1b="plain")
+    add(4, "thorough", family="ch", objective="PWake", shape="mf", **RR)
+    add(4, "thorough", family="ch", objective="QWake", shape="mf", g2="reparam", g2b="reparam", shape2="st", **RR)
+    add(4, "thorough", family="ch", objective="QWake", shape="st", g2="reinforce", g2b="reparam", shape2="mf", **RR)
     return S
 
 
 def needs_open_exclusion(struct):
-    return struct["objective"] == "IWELBO" and struct["g1"] in ADEV_KINDS
+    return struct["objective"] == "IWELBO" and (struct["g1"] in ADEV_KINDS or struct.get("g1b") in ADEV_KINDS)
 
 
 def _nn_posterior(th):
@@ -710,11 +863,30 @@ def theta_strategy(struct):
 
             return st.builds(place, full, fl(*RHO), fl(-DELTA, DELTA))
         return full.filter(lambda th: _nn_iwelbo_region(struct, th))
+    if struct["family"] == "ch" and struct["objective"] == "IWELBO" and struct["N"] >= 2:
+        # construction: the structured proposal is placed relative to the exact posterior
+        # p(x1|y) p(x2|x1,y) (which a structured guide can represent exactly)
+        def place2(th, rho1, rho2, d1, d2, dc):
+            th = dict(th)
+            prec2 = 1.0 / th["t2"] ** 2 + 1.0 / th["l"] ** 2
+            c_ = (th["k"] / th["t2"] ** 2) / prec2
+            m2_ = (th["d"] / th["t2"] ** 2 + th["y"] / th["l"] ** 2) / prec2
+            v12 = th["t2"] ** 2 + th["l"] ** 2
+            prec1 = 1.0 / th["t1"] ** 2 + th["k"] ** 2 / v12
+            m1_ = (th["a1"] / th["t1"] ** 2 + th["k"] * (th["y"] - th["d"]) / v12) / prec1
+            th["s1"] = round(math.sqrt(rho1 / prec1), 3)
+            th["m1"] = round(m1_ + d1 * th["s1"], 3)
+            th["s2"] = round(math.sqrt(rho2 / prec2), 3)
+            th["m2"] = round(m2_ + d2 * th["s2"], 3)
+            th["c"] = round(c_ + dc, 3) if struct["shape"] == "st" else th["c"]
+            return th
+
+        return st.builds(place2, full, fl(0.7, 2.0), fl(0.7, 2.0), fl(-1.0, 1.0), fl(-1.0, 1.0), fl(-0.3, 0.3))
     return full
 
 
 def case_strategy(struct, n):
-    s = {k: v for k, v in struct.items() if k != "cost"}
+    s = {k: v for k, v in struct.items() if k not in ("cost", "sel")}
     return st.builds(
         lambda th, ks: {"struct": s, "theta": th, "kseed": ks, "n": n},
         theta_strategy(struct),
@@ -731,6 +903,12 @@ def classes_of(struct):
         cl.append(f"QWake:posterior_approx={struct['g2']}")
     if struct["objective"] == "QWake" and struct["g1"] == "const" and struct["g2"] == "const":
         cl.append("parameter-free-proposal-exact-zero")
+    if struct["family"] == "ch":
+        # the guide that is *sampled* (QWake only scores G1 and samples G2)
+        a, b, shape = (struct["g2"], struct["g2b"], struct["shape2"]) if struct["objective"] == "QWake" else (struct["g1"], struct["g1b"], struct["shape"])
+        cl.append(f"two-site-guide:{a}+{b}({shape})")
+        if a == "reparam" and b == "reparam":
+            cl.append("sampled-guide-has->=2-reparam-sites")
     return cl
 
 
@@ -744,23 +922,32 @@ def is_nontrivial(struct):
 
 
 def plan(ctx):
-    """work units (struct, rep) of this shard. Structures that run are dealt round-robin, the most
-    expensive first; structures skipped for an open finding cost nothing and are dealt separately."""
-    S = sorted(all_structures(ctx.tier), key=lambda s: -s["cost"])
-    skip = [s for s in S if needs_open_exclusion(s) and ctx.is_open(OPEN_IWELBO)]
-    live = [s for s in S if not (needs_open_exclusion(s) and ctx.is_open(OPEN_IWELBO))]
+    """work units (struct, rep, go) of this shard.
+    quick: the core structures plus the seed-chosen slice (index % QUICK_ROTATION == seed %
+    QUICK_ROTATION) of the rotating ones; thorough: every structure, repeated until every shard has
+    work. Structures that run are assigned longest-first to the least loaded shard (by measured
+    compilation cost); structures skipped for an open finding cost nothing and are dealt last."""
+    S = all_structures(ctx.tier)
+    if ctx.quick:
+        rot = [s for s in S if s["sel"] != "core"]
+        chosen = {id(s) for k, s in enumerate(rot) if k % QUICK_ROTATION == ctx.seed % QUICK_ROTATION}
+        S = [s for s in S if s["sel"] == "core" or id(s) in chosen]
+    is_skip = lambda s: needs_open_exclusion(s) and ctx.is_open(OPEN_IWELBO)  # noqa: E731
+    live = [s for s in S if not is_skip(s)]
+    skip = [s for s in S if is_skip(s)]
     reps = max(1, -(-ctx.nshards // len(live)))
-    units = []
-    u = 0
-    for rep in range(reps):
-        for s in live:
-            units.append((u % ctx.nshards, s, rep, True))
-            u += 1
-    for rep in range(reps):
-        for s in skip:
-            units.append((u % ctx.nshards, s, rep, False))
-            u += 1
-    return [(s, rep, go) for sh, s, rep, go in units if sh == ctx.shard]
+    load = [0.0] * ctx.nshards
+    mine = []
+    units = [(s, rep) for rep in range(reps) for s in live]
+    for s, rep in sorted(units, key=lambda u: -u[0]["cost"]):  # stable: ties keep table order
+        sh = min(range(ctx.nshards), key=lambda k: (load[k], k))
+        load[sh] += s["cost"] + 1.0
+        if sh == ctx.shard:
+            mine.append((s, rep, True))
+    for u, (s, rep) in enumerate((s, rep) for rep in range(reps) for s in skip):
+        if u % ctx.nshards == ctx.shard:
+            mine.append((s, rep, False))
+    return mine
 
 
 def run(ctx):
